@@ -234,6 +234,9 @@ def run(ctx, repo):
     ctx.rule('R5', 'parse_hms / str2num: no arithmetic mixes an unbounded int from the text with a float (implicit conversion -> OverflowError) '
                    'outside a handler that converts OverflowError to ValueError; no int() of a float')
     ctx.rule('R6', "round_up_str_num: the integer part taken from split('.') may be empty; every path to the return tests or rebuilds it")
+    ctx.rule('R7', 'round_up_str_num: the slice bounded by the noise cut-off keeps exactly maxDP characters (polynomial slice length)')
+    ctx.rule('R8', 'parse_hms / str2num: no index subscript, division, format of wrong arity or unknown call outside a handler that converts it '
+                   'to ValueError (may-raise inventory, handlers included)')
     ctx.rule('R4', 'round_up_str_num: a length derived from a digit string is not used to slice the string after it was re-built (carry that adds a digit)')
     ctx.rule('R3', 'seconds and minutes lie in [0,59] at every formatting statement; two-digit padding; precision guard 0..3 -> ValueError')
     # ---- R1
@@ -365,6 +368,94 @@ def run(ctx, repo):
                         "empty integer part" % ivar, "round_up_str_num('.0', 0) == ''   ('.5', 0 gives '1'; '.00', 1 gives '.0')")
         else:
             ctx.ok('R6', 'round_up_str_num: `%s` is examined or rebuilt on every path to the return (%d CFG nodes)' % (ivar, len(g.nodes)))
+    # ---- R7 the noise cut-off keeps exactly maxDP decimals: every slice of round_up_str_num whose bounds mention the cut-off parameter has
+    # length (upper - lower) == that parameter, decided on polynomials (sa/symx.py); at least one such slice exists
+    from .. import symx
+    cut = rus.args.args[2].arg if len(rus.args.args) >= 3 else None
+    if cut is None:
+        raise AnalysisError('round_up_str_num: no cut-off parameter')
+    n_cut = 0
+    for n in ast.walk(rus):
+        if isinstance(n, ast.Subscript) and isinstance(n.slice, ast.Slice) and any(
+                isinstance(x, ast.Name) and x.id == cut for x in ast.walk(n.slice)):
+            n_cut += 1
+            try:
+                up = symx.canon(symx.py_ir(n.slice.upper, {})) if n.slice.upper is not None else None
+                lo_ = symx.canon(symx.py_ir(n.slice.lower, {})) if n.slice.lower is not None else symx.Poly.const(0)
+            except symx.Unsupported:
+                up = None
+            if up is None:
+                ctx.info('round_up_str_num: slice %s not in the polynomial fragment' % unparse(n))
+                continue
+            length = up - lo_
+            if length == symx.Poly.atom(symx.jsast.camel(cut)):
+                ctx.ok('R7', 'round_up_str_num: %s keeps exactly %s characters' % (unparse(n), cut))
+            else:
+                ctx.finding('R7', '%s::round_up_str_num::cut-off length' % UTILS, UTILS, n.lineno,
+                            'the slice %s keeps %s characters, not %s: digits up to the %s-th decimal are significant, so a non-zero digit in the '
+                            'last significant place is dropped and the value is rounded down' % (unparse(n), length.show(), cut, cut),
+                            "round_up_str_num('1.00001', 2) must be '1.01'")
+    if n_cut == 0:
+        ctx.finding('R7', '%s::round_up_str_num::no cut-off' % UTILS, UTILS, rus.lineno,
+                    'no slice of round_up_str_num is bounded by %s: the noise beyond the %s-th decimal is not removed' % (cut, cut))
+    # ---- R8 may-raise inventory of str2num / parse_hms: every operation that can raise something other than ValueError
+    n_ops = 0
+    for fn in (mod.func('str2num'), mod.func('parse_hms')):
+        def covered(node, families):
+            c, p_ = node, getattr(node, '_parent', None)
+            while p_ is not None and p_ is not fn:
+                if isinstance(p_, ast.Try) and any(c is s0 for s0 in p_.body):
+                    for h in p_.handlers:
+                        names = {x.id for x in ast.walk(h.type) if isinstance(x, ast.Name)} if h.type is not None else {'BaseException'}
+                        if names & (set(families) | {'Exception', 'BaseException', 'LookupError' if set(families) & {'IndexError', 'KeyError'} else '-',
+                                                     'ArithmeticError' if 'ZeroDivisionError' in families else '-'}):
+                            return True
+                c, p_ = p_, getattr(p_, '_parent', None)
+            return False
+        ann = {id(x) for st_ in ast.walk(fn) if isinstance(st_, ast.AnnAssign) for x in ast.walk(st_.annotation)}
+        for n in (x for st_ in fn.body for x in ast.walk(st_)):
+            fam = None
+            if id(n) in ann:
+                continue
+            if isinstance(n, ast.Subscript) and not isinstance(n.slice, ast.Slice) and isinstance(n.ctx, ast.Load):
+                # constant index into a literal of known size is fine
+                base, idx = n.value, n.slice
+                try:
+                    iv = ast.literal_eval(idx)
+                except (ValueError, SyntaxError):
+                    iv = None
+                if isinstance(base, (ast.Tuple, ast.List)) and isinstance(iv, int) and not isinstance(iv, bool) \
+                        and -len(base.elts) <= iv < len(base.elts):
+                    continue
+                fam = ('IndexError', 'KeyError')
+                what = 'the subscript %s can be out of range' % unparse(n)
+            elif isinstance(n, ast.BinOp) and isinstance(n.op, (ast.Div, ast.FloorDiv, ast.Mod)) and not (
+                    isinstance(n.left, ast.Constant) and isinstance(n.left.value, str)):
+                if isinstance(n.right, ast.Constant) and isinstance(n.right.value, (int, float)) and n.right.value != 0:
+                    continue
+                fam = ('ZeroDivisionError',)
+                what = 'the division %s can divide by zero' % unparse(n)
+            elif isinstance(n, ast.BinOp) and isinstance(n.op, ast.Mod) and isinstance(n.left, ast.Constant) and isinstance(n.left.value, str):
+                nspec = len(re.findall(r'%(?!%)', n.left.value.replace('%%', '')))
+                nargs = len(n.right.elts) if isinstance(n.right, ast.Tuple) else 1
+                n_ops += 1
+                if nspec != nargs:
+                    fam = ('TypeError',)
+                    what = 'the format %r has %d fields for %d arguments' % (n.left.value, nspec, nargs)
+            elif isinstance(n, ast.Call) and isinstance(n.func, ast.Name) and n.func.id not in (
+                    'int', 'float', 'str', 'repr', 'isinstance', 'len', 'ValueError', 'str2num', 'parse_hms', 'enumerate', 'range', 'abs', 'bool',
+                    'min', 'max', 'tuple', 'list', 'reversed', 'zip', 'sum', 'round', 'divmod') and n.func.id not in mod.functions:
+                fam = ('Exception',)
+                what = 'the call %s is to a function this rule knows nothing about' % unparse(n)[:50]
+            if fam is None:
+                continue
+            n_ops += 1
+            if covered(n, fam):
+                continue
+            ctx.finding('R8', '%s::%s::may raise %s' % (UTILS, fn.name, '/'.join(fam)), UTILS, n.lineno,
+                        '%s: %s, and nothing turns the %s into ValueError: for some text the caller gets an exception the contract excludes'
+                        % (fn.name, what, ' / '.join(fam)), "parse_hms('x:1:2:3')")
+    ctx.count('operations inventoried for other exceptions', n_ops)
     # ---- R2
     s2n = mod.func('str2num')
     ph = mod.func('parse_hms')
